@@ -109,7 +109,7 @@ func (r *runner) drain() {
 // of broadcasts the event must produce (ticks, woken catch-up sleepers), expSync whether a
 // sync with the peers is expected.
 func (r *runner) settle(expEmits int, expSync bool, sends0, syncs0 int) {
-	peers := r.w.cur().N - 1
+	peers := r.w.H.VerifGroupLen() - 1
 	if r.stopped {
 		time.Sleep(2 * time.Millisecond)
 		return
@@ -278,7 +278,12 @@ func (r *runner) Do(ev Event) Obs {
 		}
 		reps := m - r.emitMult[i]
 		r.emitMult[i] = m
-		valid := w.Sch.ThresholdScheme.VerifyPartial(w.H.VerifPubPoly(), w.Digest(e.Round, e.Prev), e.Sig) == nil
+		valid := false
+		for _, ep := range w.Epochs { // the share of whichever epoch was live when it was signed
+			if w.Sch.ThresholdScheme.VerifyPartial(ep.PubPoly, w.Digest(e.Round, e.Prev), e.Sig) == nil {
+				valid = true
+			}
+		}
 		if idx, err := w.Sch.ThresholdScheme.IndexOf(e.Sig); err != nil || idx != w.Me {
 			valid = false
 		}
